@@ -98,15 +98,21 @@ FloatLitOK(line) ==
           \/ (d # 0 /\ DigitsUnd(ip) /\ (fp = <<>> \/ DigitsUnd(fp)))
           \/ (d # 0 /\ ip = <<>> /\ DigitsUnd(fp))
 
-(* body of a quoted STRING: valid input of codecs.escape_decode *)
+(* body of a quoted STRING: valid input of codecs.escape_decode whose result is
+   ASCII (pickletools and the unpickler's default encoding decode it as ASCII):
+   raw bytes < 128, \xHH below 0x80, octal escapes below \200                     *)
+IsOct(c) == c \in 48..55
 RECURSIVE EscOK(_, _)
 EscOK(s, k) ==
     IF k > Len(s) THEN TRUE
+    ELSE IF s[k] > 127 THEN FALSE
     ELSE IF s[k] # 92 THEN EscOK(s, k + 1)
     ELSE IF k = Len(s) THEN FALSE                      \* trailing backslash
     ELSE IF s[k + 1] = 120
-         THEN k + 3 <= Len(s) /\ IsHex(s[k + 2]) /\ IsHex(s[k + 3]) /\ EscOK(s, k + 4)
-         ELSE EscOK(s, k + 2)
+         THEN k + 3 <= Len(s) /\ s[k + 2] \in 48..55 /\ IsHex(s[k + 3]) /\ EscOK(s, k + 4)
+    ELSE IF IsOct(s[k + 1]) /\ k + 3 <= Len(s) /\ IsOct(s[k + 2]) /\ IsOct(s[k + 3])
+         THEN s[k + 1] \in 48..49 /\ EscOK(s, k + 4)   \* three octal digits: value must stay below 128
+    ELSE EscOK(s, k + 2)
 
 QuotedOK(line) ==
     /\ Len(line) >= 2
